@@ -100,6 +100,54 @@ fn scan_string_literal() {
 
 #[cfg(kani)]
 #[kani::proof]
+#[kani::unwind(12)]
+fn scan_string_literal_multibyte() {
+  // valid UTF-8 by construction: `"`, then up to three characters each of which is either one symbolic ASCII
+  // byte or the two-byte character U+00E9, then a symbolic tail byte.  Columns are byte offsets in this code
+  // base (the error printer and every other scanner count bytes), so the literal must advance by its byte length.
+  let mut buf = [0u8; 9];
+  buf[0] = b'"';
+  let mut len = 1;
+  let mut k = 0;
+  while k < 3 {
+    let two: bool = kani::any();
+    if two {
+      buf[len] = 0xC3;
+      buf[len + 1] = 0xA9;
+      len += 2;
+    } else {
+      let b: u8 = kani::any();
+      kani::assume(b < 128);
+      buf[len] = b;
+      len += 1;
+    }
+    k += 1;
+  }
+  let tail: u8 = kani::any();
+  kani::assume(tail < 128);
+  buf[len] = tail;
+  len += 1;
+  let src = unsafe { std::str::from_utf8_unchecked(&buf[..len]) };
+  let mut lx = WrappedLogosLexer::new(src, ModuleReference::DUMMY);
+  let before = lx.position;
+  match lx.lex_str_lit_opt() {
+    Some((loc, s)) => {
+      let consumed = len - lx.lexer.remainder().len();
+      assert!(s.len() == consumed);
+      assert!(loc.start == before && loc.end == lx.position);
+      assert!(lx.position == advance(before, &buf[..consumed]));
+      kani::cover!(consumed == 6);
+      std::mem::forget(s);
+    }
+    None => {
+      assert!(lx.position == before);
+      assert!(lx.lexer.remainder().len() == len);
+    }
+  }
+}
+
+#[cfg(kani)]
+#[kani::proof]
 #[kani::unwind(9)]
 #[kani::stub(std::string::String::from_utf8_lossy, stub_from_utf8_lossy)]
 fn scan_line_comment() {
